@@ -188,6 +188,8 @@ def correspond(ctx, corr):
     route_tridonic(ctx, corr, ids, picks)
     route_hasseb(ctx, corr, ids, picks)
     route_serial(ctx, corr, ids, picks)
+    route_serial_delivery(ctx, corr, ids, picks, found)
+    route_atx_threads(ctx, corr, ids, picks, found)
     corr.exhaustive["hasseb: every status code x (every byte for the protocol's codes 1-3, boundary bytes otherwise)"] = True
     corr.exhaustive["tridonic: every report type x (every status byte for types 0x72/0x77, boundary bytes otherwise)"] = True
     corr.exhaustive["daliserver: every status x every value"] = True
@@ -1037,6 +1039,195 @@ def route_serial_delivery(ctx, corr, ids, picks, found):
                 run_one(kind, callers, pattern, rng.choice([None, rng.randrange(256)]), rng.random() < 0.7)
     corr.count("traces", traces)
     corr.count("serial_delivery", traces)
+
+
+# ---- ATX LED hat used from two threads ------------------------------------------
+
+class HatPort:
+    """fake `serial.Serial` of an ATX LED hat.  One reply line per transmitted
+    frame, in wire order, no identification (the hat's protocol, Spec.atxLines):
+    `J<hex>` when gear answered, `N` otherwise; a send-twice command is
+    answered twice.  `slow[k]` = number of reads that time out (return b"")
+    before the reply to the k-th written command becomes available (the bus was
+    busy).  No real waiting anywhere."""
+
+    def __init__(self, answers, slow, sched):
+        self.answers = answers          # command line (bytes) -> reply lines (Spec.atxLines)
+        self.slow = list(slow)
+        self.sched = sched
+        self.pending = []               # [reads still to time out, line]
+        self.events = []
+        self.nwrites = 0
+
+    def write(self, data):
+        data = bytes(data)
+        who = self.sched.who()
+        self.events.append("thread %s writes %r" % (who, data.decode("ascii").strip()))
+        wait = self.slow[self.nwrites] if self.nwrites < len(self.slow) else 0
+        self.nwrites += 1
+        for line in self.answers.get(data, [b"N\n"]):
+            self.pending.append([wait, line])
+            wait = 0
+
+    def read_until(self, term=b"\n"):
+        who = self.sched.who()
+        if self.pending and self.pending[0][0] <= 0:
+            line = self.pending.pop(0)[1]
+            self.events.append("thread %s reads %r" % (who, line.decode("ascii").strip()))
+            return line
+        if self.pending:
+            self.pending[0][0] -= 1
+        self.events.append("thread %s: read times out" % who)
+        self.sched.timed_out(who)
+        return b""
+
+    def close(self):
+        pass
+
+
+class HandOff:
+    """deterministic two-thread schedule.  Thread 2 is released when thread 1's
+    `at`-th read of the port times out and thread 1 goes on only once thread 2
+    stands at the driver's lock (or is through with its send); from then on,
+    whenever thread 1 lets go of the lock completely, thread 2 runs until its
+    send() has returned.  If thread 1 keeps the lock from its write until it
+    has its reply (the unchanged driver), thread 2 simply waits its turn."""
+
+    def __init__(self, at):
+        import threading
+        self.threading = threading
+        self.at = at
+        self.ids = {}
+        self.timeouts1 = 0
+        self.go2 = threading.Event()
+        self.at_lock2 = threading.Event()
+        self.done2 = threading.Event()
+        self.problems = []
+
+    def who(self):
+        return self.ids.get(self.threading.get_ident(), "?")
+
+    def timed_out(self, who):
+        if who == 1:
+            self.timeouts1 += 1
+            if self.timeouts1 == self.at and not self.go2.is_set():
+                self.go2.set()
+                if not self.at_lock2.wait(10):
+                    self.problems.append("thread 2 never reached the lock")
+
+    def make_lock(self):
+        sched = self
+        inner = self.threading.RLock()
+
+        class Lock:
+            depth = 0
+
+            def acquire(self, *a, **kw):
+                if sched.who() == 2:
+                    sched.at_lock2.set()
+                r = inner.acquire(*a, **kw)
+                if r and sched.who() == 1:
+                    Lock.depth += 1
+                return r
+
+            def release(self):
+                me = sched.who()
+                if me == 1:
+                    Lock.depth -= 1
+                inner.release()
+                if me == 1 and Lock.depth == 0 and sched.go2.is_set() and not sched.done2.is_set():
+                    if not sched.done2.wait(10):
+                        sched.problems.append("thread 2 did not finish while thread 1 was off the lock")
+
+            __enter__ = acquire
+
+            def __exit__(self, *a):
+                self.release()
+        return Lock()
+
+
+def route_atx_threads(ctx, corr, ids, picks, found):
+    """the real SyncDaliHatDriver, one driver object, two threads, every pair of
+    command kinds x bus outcomes, the first caller's reply late by 1-2 reads:
+    each caller must get the answer to its own command."""
+    import logging
+    import threading
+    from dali.driver import atxled
+    atxled.time = types.SimpleNamespace(sleep=lambda s: None)
+    log = logging.getLogger("verif-atx")
+    log.disabled = True
+    traces = 0
+    pool = [picks[k] for k in KINDS]
+
+    def run_pair(c1, bus1, c2, bus2, late1, late2, at):
+        nonlocal traces
+        sched = HandOff(at)
+        drv = object.__new__(atxled.SyncDaliHatDriver)
+        drv.port = "fake"
+        drv.lock = sched.make_lock()
+        drv.buffer = []
+        drv.LOG = log
+        answers = {}
+        for c, bus in ((c1, bus1), (c2, bus2)):
+            toks = ask(["enc atx %d 0 %s 0" % (c.sendtwice, bus)])[0].split()[1:]
+            answers[bytes(drv.construct(c))] = [
+                b"N\n" if t.startswith("N") else b"J%02X\n" % int(t.split(".")[1]) for t in toks]
+        port = HatPort(answers, [late1, late2], sched)
+        drv.conn = port
+        results = {}
+
+        def first():
+            sched.ids[threading.get_ident()] = 1
+            try:
+                results[1] = "ok " + canon_answer(drv.send(c1), ids)
+            except BaseException as e:  # noqa
+                results[1] = "err " + type(e).__name__
+
+        def second():
+            sched.ids[threading.get_ident()] = 2
+            sched.go2.wait(10)
+            try:
+                results[2] = "ok " + canon_answer(drv.send(c2), ids)
+            except BaseException as e:  # noqa
+                results[2] = "err " + type(e).__name__
+            finally:
+                sched.at_lock2.set()
+                sched.done2.set()
+        t1, t2 = threading.Thread(target=first, daemon=True), threading.Thread(target=second, daemon=True)
+        t2.start()
+        t1.start()
+        t1.join(30)
+        if not sched.go2.is_set():
+            sched.go2.set()          # thread 1 never saw a time-out: thread 2 follows it
+        t2.join(30)
+        history = {"routing": list(port.events), "thread 1": "%s, bus %s, reply late by %d reads" % (c1, bus1, late1),
+                   "thread 2": "%s, bus %s, started at thread 1's time-out no. %d" % (c2, bus2, at)}
+        for p in sched.problems:
+            corr.disagree("atx_threads", history, "schedule completes", p)
+        for n, c, bus in ((1, c1, bus1), (2, c2, bus2)):
+            if n not in results:
+                corr.violate("routing:atx:hang", dict(history, caller=n), "send() returns", "thread %d still inside send()" % n,
+                             "send() did not return with two threads on one driver object")
+                continue
+            check_table(corr, "atx", c, bus, results[n], ids, history=dict(history, caller=n, command=str(c), bus=bus))
+            corr.nontrivial(("atx-threads", n, c.response is not None, bool(c.sendtwice), bus[0]))
+        traces += 1
+    rng = ctx.rng
+    for c1 in pool:
+        for c2 in pool:
+            v1, v2 = rng.randrange(256), rng.randrange(256)
+            if v1 == v2:
+                v2 = (v2 + 1) % 256
+            b1s = ["s", "v%d" % v1] if c1.response is not None else ["s"]
+            b2s = ["s", "v%d" % v2] if c2.response is not None else ["s"]
+            for bus1 in b1s:
+                for bus2 in b2s:
+                    for late1, at in ((1, 1), (2, 1), (2, 2)):
+                        if bytes(c1.frame.pack) == bytes(c2.frame.pack) and bus1 != bus2:
+                            continue      # the same frame cannot be answered differently by the table below
+                        run_pair(c1, bus1, c2, bus2, late1, rng.choice([0, 0, 1]), at)
+    corr.count("traces", traces)
+    corr.count("atx_threads", traces)
 
 
 # ---------------------------------------------------------------------------
